@@ -64,6 +64,12 @@ impl Signal {
     }
 
     pub fn of_path(path: &str) -> Option<Signal> {
+        // origin-form (`/v1/logs`) or absolute-form (`http://host:port/v1/logs`, which is what emit's
+        // HTTP/1 client puts on the request line)
+        let path = match path.split_once("://") {
+            Some((_, rest)) => rest.find('/').map(|i| &rest[i..]).unwrap_or("/"),
+            None => path,
+        };
         let path = path.split('?').next().unwrap_or(path);
         Signal::ALL.into_iter().find(|s| path == s.http_path() || path == s.grpc_path())
     }
